@@ -93,6 +93,32 @@ func (e *engine) ctorPrim1(c ctor, seed uint64) {
 		}
 		return it, nil
 	}})
+	// the same constructor with padded (leading zero) encodings of its inputs (leadzero.go)
+	for _, v := range leadZeroVariants(c.ins, c.build) {
+		v := v
+		e.o.Count("constructor-leadzero:" + c.api)
+		e.run(spec{api: c.api + v.tag, ins: v.ins, once: true, lays: leadZeroLayouts(), mk: func() (*inst, error) {
+			var p any
+			it := &inst{}
+			it.call = func(ins [][]byte) ([][]byte, string) {
+				var err error
+				p, err = c.build(ins)
+				return nil, errS(err)
+			}
+			it.observe = func() string {
+				if p == nil {
+					return "no-primitive"
+				}
+				s := cross(c.class, p, q)
+				switch c.class {
+				case "aead", "daead", "mac", "saead":
+					s += "|" + cross(c.class, p, v.twin)
+				}
+				return s
+			}
+			return it, nil
+		}})
+	}
 	if c.opapi != "" {
 		e.primOps(primSrc{api: c.opapi, class: c.class, q: q, mk: func() (any, func() string, error) {
 			p, err := c.build(insVals(c.ins))
